@@ -1698,7 +1698,10 @@ impl StreamingQueueCompressor {
                                 sample_name: sample_name.clone(),
                                 contig_name: String::from("<SYNC>"),
                                 data: Vec::new(), // Empty data for sync token
-                                sample_priority: sample_priority + 1_000_000, // Much higher priority than any contigs
+                                // Sample priorities start at i32::MAX, so this sum leaves the i32
+                                // range: keep the two's-complement result the optimised build has
+                                // always produced, but compute it explicitly (no overflow panic)
+                                sample_priority: sample_priority.wrapping_add(1_000_000),
                                 cost: 0, // No cost for sync tokens
                                 sequence,
                                 is_sync_token: true,
